@@ -142,19 +142,37 @@ def observed(before, rec, after):
             'pushes': sum(1 for o in rec.get('ops', []) if o['kind'] in ('push', 'push_all', 'rawpush'))}
 
 
-def classify_lost(world, ctxd, tracker, cid, cd_name, before):
-    """Why the loop did not see this manual commit (class of the finding)."""
+FF_CLASS = 'manual commit on an integration branch that is a fast-forward of the source branch'
+DST_CLASS = 'manual commit on an integration branch whose tip is contained in its destination branch'
+
+
+def classify_lost(world, ctxd, tracker, cid, cd_name, before, manual_cids, memo=None):
+    """Why the loop did not see this manual commit (class of the finding): every parent is, or sits through plain
+    commits on, a commit of the source history / of the destination (no robot merge in between); else a merge."""
+    memo = {} if memo is None else memo
+    if cid in memo:
+        return memo[cid]
     inv = {v: k for k, v in ctxd['ids'].items()}
     sha = inv[cid]
     parents = ctxd['graph'][sha][0]
     dst_tip = before['refs'][cd_name]
-    if parents and all(p in tracker.src_hist or world.is_ancestor(p, dst_tip) for p in parents):
-        if parents[0] in tracker.src_hist:
-            return 'manual commit on an integration branch that is a fast-forward of the source branch'
-        return 'manual commit on an integration branch whose tip is contained in its destination branch'
-    if len(parents) > 1:
-        return 'manual merge commit on an integration branch'
-    return 'manual commit (other shape)'
+
+    def hidden(p, depth=0):  # the loop accepts p as a parent: source history, destination, or a plain commit
+        if p in tracker.src_hist or world.is_ancestor(p, dst_tip):   # (any author) sitting directly on such commits
+            return True
+        pp = ctxd['graph'].get(p, ([], '', ''))[0]
+        return depth < 50 and len(pp) == 1 and hidden(pp[0], depth + 1)
+    if parents and all(hidden(p) for p in parents):
+        first = parents[0]
+        while first not in tracker.src_hist and not world.is_ancestor(first, dst_tip):
+            first = ctxd['graph'][first][0][0]
+        res = FF_CLASS if first in tracker.src_hist else DST_CLASS
+    elif len(parents) > 1:
+        res = 'manual merge commit on an integration branch'
+    else:
+        res = 'manual commit (other shape)'
+    memo[cid] = res
+    return res
 
 
 def mon_refuse(world, tracker, ctxd, model, obs, before, after, force):
@@ -174,7 +192,7 @@ def mon_refuse(world, tracker, ctxd, model, obs, before, after, force):
         for c in cids:
             sha = inv_c[c]
             still = any(world.is_ancestor(sha, t) for t in after['refs'].values())
-            out.append({'what': classify_lost(world, ctxd, tracker, c, cands[w], before), 'branch': w,
+            out.append({'what': classify_lost(world, ctxd, tracker, c, cands[w], before, set(cids)), 'branch': w,
                         'commit': ctxd['graph'][sha][2], 'author': ctxd['graph'][sha][1],
                         'status': obs['status'], 'deleted': obs['deleted'],
                         'still_reachable_from_a_remote_ref': still})
